@@ -180,6 +180,18 @@ def run_unit(spec_name, seed=None, rlimit=None, extra_args=(), keep_name=None, t
                     f.tags = sorted(set(tg))
                     f.clause_ids.append("closure@%s" % fn)
                     break
+        # an untagged proof hint supports the contract of the function it is spliced into: attribute its
+        # failure to that function's clauses (never drop it silently)
+        if not f.tags and f.kind == "obligation":
+            for sp in spans:
+                o = sp["origin"]
+                if o[0] != "hint": continue
+                tg = []
+                for o2 in out.map:
+                    if o2[0] == "clause" and o2[2] == o[2] and not str(o2[3]).endswith("decreases"):
+                        tg += [t for t in o2[4] if t]
+                f.tags = sorted(set(tg))
+                break
         res["failures"].append(f)
     if res["status"] == "ok":
         kinds = {f.kind for f in res["failures"]}
